@@ -706,9 +706,7 @@ func (h *hist) probeFd(fd int32, after string) {
 	if h.stop || fd < firstFreeFd {
 		return
 	}
-	stale := h.staleDir
-	h.staleDir = ""
-	defer func() { h.staleDir = stale }()
+	defer h.staleProbeGuard(after)()
 	o := h.m.fds[fd]
 	got := h.g.call("fd_filestat_get", fdArg(fd), offResult)
 	if o == nil {
@@ -780,26 +778,31 @@ func (h *hist) resyncDeadFd(fd int32) {
 	h.res.Soft++
 }
 
+// staleProbeGuard runs a probe without the stale-directory tag. If the probed
+// operation went through a descriptor of a renamed/removed directory and
+// reported success, any disagreement the probe finds means the operation acted
+// on whatever now has the directory's old name.
+func (h *hist) staleProbeGuard(after string) func() {
+	stale, n0 := h.staleDir, len(h.res.Findings)
+	h.staleDir = ""
+	return func() {
+		h.staleDir = stale
+		if n := len(h.res.Findings); stale != "" && n > n0 {
+			f := &h.res.Findings[n-1]
+			f.Detail = "[" + f.Sig + "] " + f.Detail + " -- the call succeeded but acted on the path the directory had when it was opened"
+			f.Sig = "dirfd-stale-name:" + stale + ":" + strings.SplitN(after, ":", 2)[0] + ":effect-in-wrong-directory"
+			h.stop = true
+			h.res.Ended = "violation"
+		}
+	}
+}
+
 // probePath checks a path (relative to the preopen) with path_filestat_get.
 func (h *hist) probePath(path, after string) {
 	if h.stop || path == "" {
 		return
 	}
-	stale := h.staleDir
-	h.staleDir = ""
-	defer func() { h.staleDir = stale }()
-	if stale != "" {
-		// the operation went through a descriptor of a renamed/removed directory
-		// and reported success: if its effect is not where the model puts it, it
-		// landed in whatever now has the directory's old name
-		defer func() {
-			if n := len(h.res.Findings); h.stop && n > 0 && strings.Contains(h.res.Findings[n-1].Sig, ":then:path_filestat_get:") {
-				f := &h.res.Findings[n-1]
-				f.Sig = "dirfd-stale-name:" + stale + ":" + strings.SplitN(after, ":", 2)[0] + ":effect-in-wrong-directory"
-				f.Detail += " -- the call succeeded but acted on the path the directory had when it was opened"
-			}
-		}()
-	}
+	defer h.staleProbeGuard(after)()
 	res := h.m.resolve(h.m.root, path)
 	p, l := h.g.putPath(offPathA, path)
 	got := h.g.call("path_filestat_get", preopenFd, 0, p, l, offResult)
@@ -2107,6 +2110,7 @@ func (h *hist) opReaddirPass(hn *hint) {
 
 func (h *hist) finalSweep() {
 	h.res.Sweeps++
+	h.staleDir = ""
 	after := "final-sweep"
 	top := h.m.maxFd() + 3
 	for fd := int32(firstFreeFd); fd <= top && !h.stop; fd++ {
